@@ -270,9 +270,9 @@ func runTranscode(payload string) string {
 }
 
 func genTranscode(g *G, tier string, emit func(string)) {
-	n := 3000
+	n := 10000
 	if tier == "thorough" {
-		n = 60000
+		n = 200000
 	}
 	emitC := func(item []byte) {
 		toks, _ := decodeTokens("c", item)
